@@ -37,7 +37,7 @@ for f in doc['fixed']:
                 break
         if len(found) >= f.get('want_exemplars', 3):
             break
-    ex.shutdown()
+    runner.close_pool(ex)
     items = sorted(found.values(), key=lambda x: len(x[3]))[:f.get('want_exemplars', 3)]
     ex = runner.make_pool(spec)          # same mutant: these workers load the island with it
     clean = runner.make_pool(spec)
@@ -52,5 +52,5 @@ for f in doc['fixed']:
         res0, _ = runner.in_worker(clean, runner._run_values_job, mini, st, None, False, False)
         ok = not any(spec.relevant(x) for x in res0['violations'])
         print(f['id'], path, runner.vkey(v), 'tape', len(mini), 'clean-on-tree' if ok else 'STILL FAILS ON TREE')
-    ex.shutdown()
-    clean.shutdown()
+    runner.close_pool(ex)
+    runner.close_pool(clean)
